@@ -70,7 +70,9 @@ func VxRunReplays(jobsFile, outFile string, dispatch map[string]func([]int64)) {
 		j.cur = -1
 		VxRT = j
 		out := VxOut{ID: j.ID}
-		func() {
+		done := make(chan struct{})
+		go func() {
+			defer close(done)
 			defer func() {
 				if e := recover(); e != nil {
 					out.Panic = fmt.Sprint(e)
@@ -82,11 +84,19 @@ func VxRunReplays(jobsFile, outFile string, dispatch map[string]func([]int64)) {
 			}
 			fn(j.Args)
 		}()
+		select {
+		case <-done:
+		case <-time.After(8 * time.Second):
+			// the harness hangs: a (self-)deadlock in sequential code or a lost wake-up
+			out.Deadlock = true
+		}
+		j.mu.Lock()
 		out.Failures, out.Reached, out.Observed, out.AssumeViolated = j.Failures, j.Reached, j.Observed, j.AssumeViolated
 		if j.sch != nil {
-			out.Deadlock = j.sch.deadlocked
+			out.Deadlock = out.Deadlock || j.sch.deadlocked
 			out.Diverged = j.sch.diverged
 		}
+		j.mu.Unlock()
 		outs = append(outs, out)
 		VxRT = nil
 	}
